@@ -276,6 +276,12 @@ def main(prop_module, argv):
                 print(line)
         summary = [l for l in p2.stdout.splitlines() if " tier=" in l]
         instr_pass = dict(rc=p2.returncode, summary=summary[-1] if summary else "(no summary)")
+        for l in p2.stdout.splitlines():
+            if l.startswith("instr_totals_json="):
+                try:
+                    instr_pass["totals"] = json.loads(l[len("instr_totals_json="):])      # incl. the site sweeps' counters
+                except ValueError:
+                    pass
         if p2.returncode != 0:
             rc = p2.returncode
 
@@ -294,6 +300,8 @@ def main(prop_module, argv):
         tmp = os.path.join(VERIF, "evidence", "%s.json.tmp" % prop.id)
         json.dump(ev, open(tmp, "w"), indent=1, default=str)
         os.replace(tmp, os.path.join(VERIF, "evidence", "%s.json" % prop.id))
+    if a.instr:
+        print("instr_totals_json=" + json.dumps(totals, default=str))
     dod = hashlib.sha256(json.dumps(sorted(digests.items())).encode()).hexdigest()[:16]
     print("%s digest_of_digests=%s" % (prop.id, dod))
     print("%s tier=%s runs=%d nontrivial=%d distinct=%d violations=%d harness_errors=%d wall=%.1fs rc=%d" % (
